@@ -38,6 +38,10 @@ int worker_main(int argc, char** argv, Engine& engine);
 // helpers available to engines
 std::string scratch_dir();                       // per-process scratch directory (ends with '/')
 void clean_scratch();                            // remove all files inside
+// Replace every occurrence of the (pid-bearing) scratch path by "@/": everything that is hashed
+// into a fingerprint or trace signature goes through this, so that a run is a function of
+// the scenario and not of the process it ran in.
+std::string norm_paths(const std::string& s);
 bool write_file(const std::string& path, const std::string& bytes);
 bool read_file(const std::string& path, std::string& out);
 bool file_exists(const std::string& path);
